@@ -310,6 +310,7 @@ static void c06_exec(const op_t *op, int opidx) {
 			 * for this registration (what fires when relative to the call is a race by design) */
 			r->outside_inflight = 1; g_outside_ctl++; sim_knobs.tolerate_bad_close = 1;
 			if (!r->fuzzy) { r->fuzzy = 1; sim_probe("ev.slot_fuzzy_after_outside_ctl"); }
+			sim_set_context_tag("outside-thread-control"); /* precondition of known finding KF-C06-1 */
 		}
 		c06_ctl(op, r, slot);
 		r->outside_inflight = 0;
